@@ -241,7 +241,7 @@ def run_converted(ctx, kind, payload, produce, dis):
     for (obj, n), i in zip(log, spec["reqs"]):
         bases.append(obj.name_override if obj.name_override is not None else nd[obj])
     _oracle(ctx, kind, payload, list(zip(keys, ans)), bases, kwset, dis)
-    for f in L.data_file_failures(r, log) + L.undeclared_namespace_failures(r, log) + \
+    for f in L.data_file_failures(r, log) + L.undeclared_namespace_failures(r, log) + L.text_usage_failures(r, log) + \
             [["pad identifier is not a declared port"] + x for x in L.pad_name_failures(r)]:
         dis.append({"kind": "monitor", "case": "convert-text", "payload": dict(payload, producer=kind), "oracle": f})
     # declarations in the emitted text: no identifier declared twice (same region rule)
@@ -444,6 +444,26 @@ def repro_ties_check(ctx, dis, ndesigns, nfresh, rng=None):
     ctx.log("reproducibility tie designs: %d designs, %d generations, %d differing" % (ndesigns, gens, ndesigns - ok))
 
 
+def text_monitor_selftest(ctx, dis):
+    """The text monitors must flag a doctored text: the helper register of the corpus memory design replaced by
+    the user's signal of the requested name."""
+    entry = json.load(open(os.path.join(CORPUS, "memory_helper_names.json")))
+    res = guarded(ctx, dis, "convert", entry["payload"], lambda: produce_converted("convert", entry["payload"]))
+    if res is None:
+        return
+    r, log = res
+    names = {n for o, n in log}
+    if not {"mem_adr0", "mem_adr0_1", "mem_adr0_2", "mem_dat1_1"} <= names or L.text_usage_failures(r, log):
+        return          # the ordinary corpus run reports whatever is wrong here
+    good = r.main_source
+    doctored = good.replace("mem[mem_adr0_2]", "mem[mem_adr0]")
+    r.main_source = doctored
+    flagged = L.text_usage_failures(r, log)
+    r.main_source = good
+    if doctored == good or not flagged:
+        dis.append({"kind": "selftest", "what": "text monitor did not flag a doctored memory block", "flagged": flagged})
+
+
 def sensitivity_selftest(ctx, dis):
     """The comparison must flag a perturbed model answer."""
     c = {"kw": True, "bases": ["x", "x"], "ovr": [False, True], "reqs": [0, 1]}
@@ -492,6 +512,7 @@ def correspond(ctx):
         "C02: cross-process reproducibility (PYTHONHASHSEED, set/dict order) is validated by re-running convert(), not proved",
     ]
     sensitivity_selftest(ctx, dis)
+    text_monitor_selftest(ctx, dis)
     keyword_table_check(ctx, dis)
     if getattr(ctx, "regen_changed", False):
         dis.append({"kind": "regen", "what": "Generated/Keywords.lean was not byte-identical to the committed table"})
@@ -925,7 +946,7 @@ def replay(ctx, payload):
         bad = outs[0] != outs[1]
         print("replay: convert() text under two PYTHONHASHSEED values %s" % ("DIFFERS -> STILL FAILS" if bad else "is identical -> passes"))
         return 1 if bad else 0
-    if f.get("case") == "convert-text":
+    if f.get("case") == "convert-text" and not f.get("input", {}).get("producer"):
         p = f["input"]
         r, log = L.convert_design(p["src"], p["seed"], p.get("regular_comb", True))
         decl = L.declared_identifiers(r.main_source)
